@@ -153,6 +153,18 @@ def seq_append(v, x):
     return mk_seq(v.ty, n + 1, z3.Store(T.acc(v.ty, 'at')(v.term), n, x))
 
 
+def seq_append_ax(state, v, x, hint='app'):
+    """append as a fresh sequence with trigger-friendly axioms (the ground term r[n] exists,
+    so existential goals about membership find their witness by E-matching)"""
+    n = seq_len(v)
+    r = fresh(v.ty, hint)
+    j = z3.Int(fresh_name('aj'))
+    state.assume(seq_len(r) == n + 1, seq_at(r, n) == x,
+                 z3.ForAll([j], z3.Implies(z3.And(0 <= j, j < n), seq_at(r, j) == seq_at(v, j)),
+                           patterns=[seq_at(r, j), seq_at(v, j)]))
+    return r
+
+
 def seq_store(v, i, x):
     return mk_seq(v.ty, seq_len(v), z3.Store(T.acc(v.ty, 'at')(v.term), i, x))
 
